@@ -24,7 +24,7 @@ CLAIMS = {
 
  "C16": ("exploration",
          "runtime monitoring: print/read-back round trip on the real printer and reader over random value trees; structural + exactness oracle, format rules, injectivity over the run",
-         "random value trees built by evaluation (the C09 operand grid, results of arithmetic, literals and computed values of every binary32 class, characters, symbols, proper/improper lists, vectors) are printed by the code display uses and the text is read back as a quoted datum by the real reader; the read-back value must be structurally equal with the same exactness (reals bit-equal), the text must use single spaces and a dotted tail exactly for improper lists, and over the whole run equal texts must come from equal values.",
+         "random value trees built by evaluation (the C09 operand grid, results of arithmetic, literals and computed values of every binary32 class, characters, symbols, proper/improper lists, vectors) are printed by the code display uses and the text is read back as a quoted datum by the real reader; the read-back value must be structurally equal with the same exactness (reals bit-equal), the text must use single spaces and a dotted tail exactly for improper lists, and over the whole run equal texts must come from equal values; hundreds of the printed texts are also read back within one source text, and vectors that contained themselves earlier must print their elements once the cycle is removed.",
          "values containing strings, non-finite reals or symbols needing bars are skipped (counted)"),
 
  "C06": ("exploration",
@@ -44,22 +44,22 @@ CLAIMS = {
 
  "C13": ("exploration",
          "runtime monitoring: differential oracle (reference module system inside the reference evaluator) over random library/program scenarios with stateful libraries and colliding names",
-         "random scenarios of 2-5 libraries and an importing program (a stateful counter library read through several import paths, libraries importing libraries, renamed and unexported internals, importer definitions colliding with library internals and with (scheme base), redefinition of imported names, a library referring to importer-only names) run on the real interpreter; every form's result is judged by a reference module system with one instance per program.",
+         "random scenarios of 2-5 libraries and an importing program (a stateful counter library read through several import paths, libraries importing libraries, renamed and unexported internals, importer definitions colliding with library internals and with (scheme base), redefinition of imported names, a library referring to importer-only names) run on the real interpreter; every form's result is judged by a reference module system with one instance per program; import sets are spread over several declarations, with failing declarations (also ones whose first import sets succeed) between them, a library whose body has an effect when it is instantiated, and an already registered library registered again.",
          "trusted base: module system of vlib/ref_scheme.py; exports are procedures and constants"),
 
  "C14": ("fault_enumeration",
          "runtime monitoring: fault enumeration over library graphs x node kinds x import histories; loader-model oracle + quiescent-point invariant on the in-progress set (hook H3)",
-         "every directed graph on 1-2 libraries (3 sampled in quick, all registered-source cases in thorough, 4 sampled) x every assignment of 6 node kinds x every history of 3 import attempts is run on the real interpreter, libraries as files under a program directory (decoy libraries in the process's cwd) and as registered sources. Each attempt's outcome must be the one a fresh depth-first load gives (success iff no fault and no cycle reachable; error kind among the reachable ones), the names bound must be exactly the exports of the successfully imported libraries with the program directory's values, and after every step the in-progress set must be empty.",
+         "every directed graph on 1-2 libraries (3 sampled in quick, all registered-source cases in thorough, 4 sampled) x every assignment of 6 node kinds x every history of 3 import attempts is run on the real interpreter, libraries as files under a program directory (decoy libraries in the process's cwd) and as registered sources. Each attempt's outcome must be the one a fresh depth-first load gives (success iff no fault and no cycle reachable; error kind among the reachable ones), the names bound must be exactly the exports of the successfully imported libraries with the program directory's values, and after every step the in-progress set must be empty. Further legs: program files in several directories on one interpreter, a library supplied again (with two levels of dependants, versions healthy/changed/faulting/self-importing/missing), libraries that involve macros or re-export a shared dependency's bindings, and library files holding several libraries.",
          "any reachable error kind is accepted; termination is judged by a logical step budget, process death or a hang is a violation"),
 
  "C12": ("exploration",
          "runtime monitoring: exhaustive enumeration of import-set terms observed through eval_import (names + values of a fresh environment) against the import-set algebra, replicated across threads/processes",
-         "every admissible import-set term to nesting depth 2 (depth 3 sampled) over a 4-export library is evaluated by the real interpreter through the eval_import API into a fresh environment whose exact name set and values are read back, several times in different threads/processes (different hash seeds), for a native and a Scheme-source library; a sample is also run as (import ...) text and as two-set declarations. The oracle is a 15-line map algebra.",
+         "every admissible import-set term to nesting depth 2 (depth 3 sampled) over a 4-export library is evaluated by the real interpreter through the eval_import API into a fresh environment whose exact name set and values are read back, several times in different threads/processes (different hash seeds), for a native and a Scheme-source library; a sample is also run as (import ...) text, as declarations of several (also overlapping) import sets, and as histories of 2-3 declarations on one environment. The oracle is a 15-line map algebra.",
          "admissible terms only; identifier lists are written in arbitrary order on purpose"),
 
  "C08": ("fault_enumeration",
          "runtime monitoring: fault injection (8 fault kinds x 5 calling contexts x position/depth) with effect probes before/after, judged by the reference evaluator",
-         "one faulting operation of each of 8 kinds is injected in each of 5 calling contexts (direct, tail at trampoline iteration 1/2/k, apply, inside map/for-each/fold, inside a derived form in a procedure body) at a random position and depth of an otherwise valid program, between effects and followed by forms reading them back; error kind, absence of an invented value, surviving effects and later forms are judged by the reference evaluator. Every one of the 40 cells must be observed or the run is inconclusive.",
+         "one faulting operation of each of 8 kinds is injected in each of 5 calling contexts (direct, tail at trampoline iteration 1/2/k, apply, inside map/for-each/fold, inside a derived form in a procedure body) at a random position and depth of an otherwise valid program, between effects and followed by forms reading them back; error kind, absence of an invented value, surviving effects and later forms are judged by the reference evaluator - among the later forms reads and assignments of whatever the fault could have left behind (a name whose definition failed, an unbound variable whose assignment failed, closures that escaped from the failing frame). Every one of the 40 cells must be observed or the run is inconclusive.",
          "trusted base: vlib/ref_scheme.py error kinds; operand-vs-check order is free but must be one strategy per program"),
 
  "C05": ("exploration",
